@@ -575,6 +575,20 @@ struct Explorer {
           x.facts.set("restat_upstream_ran_without_rewriting", restat_nowrite);
         }
         if (before) x.facts.set("discovered_deps_information_was_available", DiscoveredDepsAvailable(s, *before));
+        {
+          // Is the file what the statement's command line in ANOTHER variant of the manifest writes (same sources)?
+          // After a killed build that is the trace of a command that completed without being recorded, under a
+          // manifest that has since been changed back to the one the older log record was made under.
+          bool other = false;
+          for (auto& v2 : sc.variants) {
+            if (&v2 == v || !v2.producer.count(o) || v2.stmts[v2.producer.at(o)].phony) continue;
+            const Stmt& s2 = v2.stmts[v2.producer.at(o)];
+            if (s2.cmd == s.cmd) continue;
+            Expect ex2(v2, after);
+            if (ex2.Content(o) == got) other = true;
+          }
+          x.facts.set("holds_what_its_command_line_in_another_manifest_variant_writes", other);
+        }
         x.facts.set("started", StartedList(r));
         out->push_back(x);
         break;
